@@ -207,7 +207,9 @@ def generate(contract):
         if res.paths == 0:
             res.status, res.reason = 'error', 'vacuous: precondition admits no path'
         elif contract.expect_return and not res.outcomes.get('return') and not res.outcomes.get('cut'):
-            res.status, res.reason = 'error', 'vacuous: no returning path (outcomes %s)' % res.outcomes
+            # not an error by itself: if the raising paths are refuted that is a finding; if they are all
+            # justified the contract is vacuous (decided after discharge, see report.conclude)
+            res.vacuous_return = True
         elif not res.obligations:
             res.status, res.reason = 'error', 'no obligations generated'
     res.seconds = time.time() - t0
